@@ -1,6 +1,7 @@
 import TinysetModel.Proofs.TotalSites
 import TinysetModel.Proofs.Total32Insert
 import TinysetModel.Proofs.Plain2
+import TinysetModel.Proofs.FaultSpec
 /-! C14 — allocation failure is contained.
 What a theorem about the functional model can and cannot say.  In the model an operation returns a new
 value, so "the set is unchanged when the operation fails" holds by construction; the question for the
@@ -15,9 +16,17 @@ there are exactly two such places, and the theorems below are the facts that mak
     requests no further block, so there is no allocation after the assignment.  `refill_never_grows_u32`: the
     same for SetU32, whose rebuild sites (with the repaired regrowth `cap + 1 + cap / 8 + r % cap`) all create
     tables that keep more than 1/16 of their buckets empty throughout the refill (`RefillGoodS`).
-Everything else about this property — that the code panics rather than continuing, that unwinding frees the
-locals, that nothing leaks — is decided by fault injection in the harness (every allocation point of every
-operation of every history prefix), not by theorems. -/
+The failure-state model (`Model/Fault.lean`) puts these facts together: `insertT` is a second reading of `insert`
+that also returns what `*self` holds at each request for a zeroed block (the assignment order read off the source:
+`*self = new` first for the inline → heap switch, a local `new` assigned last everywhere else, the placeholder
+re-chosen in place).  The harness fails each request of each insert in turn, catches the panic and sends the
+representation it finds; the driver compares it bit for bit with the model's state (`flt`/`flx` lines).
+`failure_states_u64/u32`: for EVERY well-formed set, value and generator outcome, an insert makes at most one
+request, and at that moment `*self` is well-formed, has the same length and holds exactly the prior members; the
+traced reading returns what `insert` returns.
+What stays outside the theorems: that the code panics rather than continuing, that unwinding frees the locals,
+that nothing leaks, and the non-zeroed requests (`Vec` temporaries, `realloc`: they abort, see D11) — decided by
+fault injection in the harness. -/
 namespace C14
 open SC RH
 
@@ -54,6 +63,37 @@ theorem insert_returns_u64 (g : Rng D) {r : Rp} (wf : WF cfg64 r) (e : Nat) (he 
     ∃ r' b d', insert cfg64 g 3 r e d = .ok ((r', b), d') ∧ InsOK cfg64 r e r' b :=
   insert_total_correct_u64 g wf e he hsize d
 
+/-- the traced reading of `insert` computes exactly what `insert` computes (results, errors, generator state) -/
+theorem traced_insert_is_insert (c : Cfg) (fresh : Bool) (g : Rng D) (fuel : Nat) (r : Rp) (e : Nat) (d : D) :
+    dropTr (insertT c fresh g fuel r e d) = insert c g fuel r e d :=
+  insertT_proj c fresh g fuel r e d
+
+/-- **SetU64: allocation failure inside `insert` is contained.** Every insert into a well-formed set makes at
+    most one request for a zeroed block; whatever `*self` holds at that moment (what the caller finds after
+    catching the panic) is well-formed, has the prior length and exactly the prior members. -/
+theorem failure_states_u64 (g : Rng D) {r : Rp} (wf : WF cfg64 r) (e : Nat) (he : e < 2 ^ 64)
+    (hsize : capacity r + 64 + 3 ≤ 2 ^ 64 ∧ 3 * len r + 4 + 64 + 3 ≤ 2 ^ 64) (d : D) :
+    ∃ r' b tr d', insertT cfg64 true g 3 r e d = .ok (((r', b), tr), d') ∧ insert cfg64 g 3 r e d = .ok ((r', b), d') ∧
+      tr.length ≤ 1 ∧ ∀ s ∈ tr, WF cfg64 s ∧ (elems cfg64 s).Perm (elems cfg64 r) ∧ len s = len r :=
+  insertT_contained_u64 g wf e he hsize d
+
+/-- **SetU32: the same** (dense growth reallocates in place and makes no zeroed request: `fresh = false`) -/
+theorem failure_states_u32 (g : Rng D) {r : Rp} (wf : WF cfg32 r) (e : Nat) (he : e < 2 ^ 32)
+    (hsize : capacity r + 32 + 3 ≤ 2 ^ 32 ∧ 3 * len r + 4 + 32 + 3 ≤ 2 ^ 32) (d : D) :
+    ∃ r' b tr d', insertT cfg32 false g 3 r e d = .ok (((r', b), tr), d') ∧ insert cfg32 g 3 r e d = .ok ((r', b), d') ∧
+      tr.length ≤ 1 ∧ ∀ s ∈ tr, WF cfg32 s ∧ (elems cfg32 s).Perm (elems cfg32 r) ∧ len s = len r :=
+  insertT_contained_u32 g wf e he hsize d
+
+/-- non-vacuity: a full 4-bucket plain table whose placeholder 100 is inserted while 0 is a member: the one request
+    is made with the placeholder already replaced by 200 in place — the state differs from the prior one
+    (`#[100, 5, 6, 7]` with placeholder 100), the members `0, 5, 6, 7` are kept -/
+example : (match insertT cfg64 true (⟨fun d _ _ => (200, d)⟩ : Rng Unit) 3 (.heap 4 4 100 #[100, 5, 6, 7]) 100 () with
+    | .ok ((_, tr), _) => tr.map (fun s =>
+        ((match s with | .heap sz cap bits a => (sz, cap, bits, a.toList) | _ => (0, 0, 0, [])), elems cfg64 s))
+    | .error _ => []) = [((4, 4, 200, [200, 5, 6, 7]), [0, 5, 6, 7])] := by decide +kernel
+
 end C14
 
 #print axioms C14.refill_never_grows_u32
+#print axioms C14.failure_states_u64
+#print axioms C14.failure_states_u32
